@@ -8,27 +8,74 @@
      on a non-INITIAL first packet). *)
 From AQ Require Import lib.Base lib.Tok model.RangeSet model.StreamRecv model.Frames gen.C05Tables
   model.ConnRecv proofs.FramesP.
+From AQ Require gen.C05Tls gen.TlsDispatch model.TlsRecv proofs.TlsRecvP.
 From Coq Require Import Lia.
 
-(* ---------- what a close code may be *)
-Definition oracle_total (o : tls_oracle) : Prop := to_kind o = 0 \/ to_kind o = 1 \/ to_kind o = 2.
+(* ---------- the TLS side of the state: hypotheses of the TLS-level theorems, and what a handler may do to it *)
+Definition orc_pool (t : tls_side) : list TlsRecv.orc := concat (ts_orcs t).
 
-Definition code_ok (o : tls_oracle) (code : Z) : Prop :=
+(* wf_cfg: every advertised signature algorithm is Ed25519, Ed448 or a key of SIGNATURE_ALGORITHMS;
+   wf0: a fresh client Context, or the invariant wf_ctx that handle_message re-establishes *)
+Definition tls_ok (t : tls_side) : Prop := TlsRecvP.wf_cfg (ts_cfg t) /\ TlsRecvP.wf0 (ts_ctx t).
+
+Definition tls_next (t t' : tls_side) : Prop :=
+  (tls_ok t -> tls_ok t') /\ incl (orc_pool t') (orc_pool t).
+
+(* handlers never set a close initiated by this endpoint: they leave _close_event alone, or (CONNECTION_CLOSE
+   frame, first one wins) set the peer's *)
+Definition close_step (c c' : option (bool * Z * Z)) : Prop :=
+  c' = c \/ (c = None /\ exists code ft, c' = Some (false, code, ft)).
+
+Definition st_next (st st' : cst) : Prop :=
+  tls_next (c_tls st) (c_tls st') /\ close_step (c_close st) (c_close st').
+
+Lemma tls_next_refl t : tls_next t t.
+Proof. split; [auto|apply incl_refl]. Qed.
+
+Lemma tls_next_trans a b c : tls_next a b -> tls_next b c -> tls_next a c.
+Proof. intros [H1 I1] [H2 I2]. split; [auto|]. eapply incl_tran; eauto. Qed.
+
+Lemma close_step_trans a b c : close_step a b -> close_step b c -> close_step a c.
+Proof.
+  intros [->|[-> (c1 & f1 & ->)]] [->|[E (c2 & f2 & ->)]]; try discriminate; unfold close_step; eauto 8.
+Qed.
+
+Lemma st_next_same st st' : c_tls st' = c_tls st -> c_close st' = c_close st -> st_next st st'.
+Proof. intros E1 E2. unfold st_next. rewrite E1, E2. split; [apply tls_next_refl|left; reflexivity]. Qed.
+
+Lemma st_next_trans a b c : st_next a b -> st_next b c -> st_next a c.
+Proof. intros [T1 C1] [T2 C2]. split; [eapply tls_next_trans|eapply close_step_trans]; eauto. Qed.
+
+(* ---------- what a close code may be: a QuicErrorCode, CRYPTO_ERROR + one of the eight alerts the TLS layer
+   raises on network input, CRYPTO_ERROR + missing_extension, or the code with which the transport-parameter
+   callback (_alpn_handler -> _parse_transport_parameters, an oracle field) rejected the peer's parameters *)
+Definition code_ok (t : tls_side) (code : Z) : Prop :=
   In code all_error_codes
-  \/ (code = EC_CRYPTO_ERROR + ALERT_unexpected_message \/ code = EC_CRYPTO_ERROR + ALERT_decode_error)
-  \/ (to_kind o = 1 /\ code = EC_CRYPTO_ERROR + to_val o)
-  \/ (to_kind o = 2 /\ code = to_val o).
+  \/ (exists d, In d TlsRecvP.raised_alerts /\ code = EC_CRYPTO_ERROR + d)
+  \/ code = EC_CRYPTO_ERROR + TlsDispatch.AD_missing_extension
+  \/ (exists o, In o (orc_pool t) /\ code = TlsRecv.o_tp_code o /\ code <> 0).
+
+Lemma code_ok_incl t t' code : incl (orc_pool t') (orc_pool t) -> code_ok t' code -> code_ok t code.
+Proof.
+  intros I [H|[H|[H|(o & Ho & H)]]]; unfold code_ok; auto.
+  right. right. right. exists o. split; [apply I; exact Ho|exact H].
+Qed.
 
 Definition hgood (st : cst) (b : list Z) (r : hres) : Prop :=
   match r with
-  | HOk st' rest => c_tls_oracle st' = c_tls_oracle st /\ (length rest <= length b)%nat
-  | HFin st' rest => c_tls_oracle st' = c_tls_oracle st /\ (length rest <= length b)%nat
+  | HOk st' rest => st_next st st' /\ (length rest <= length b)%nat
+  | HFin st' rest => st_next st st' /\ (length rest <= length b)%nat
   | HBuf => True
-  | HErr _ code _ => code_ok (c_tls_oracle st) code
-  | HExn _ _ => ~ oracle_total (c_tls_oracle st)
+  | HErr _ code _ => tls_ok (c_tls st) -> code_ok (c_tls st) code
+  | HExn _ _ => ~ tls_ok (c_tls st)
   end.
 
-Ltac in_codes := left; cbv; repeat (first [left; reflexivity | right]).
+(* hgood reads the state only through c_tls and c_close *)
+Lemma hgood_transport st st' b r :
+  c_tls st' = c_tls st -> c_close st' = c_close st -> hgood st' b r -> hgood st b r.
+Proof. intros E1 E2. destruct r; unfold hgood, st_next; rewrite ?E1, ?E2; auto. Qed.
+
+Ltac in_codes := intros; left; cbv; repeat (first [left; reflexivity | right]).
 
 Ltac pull_step :=
   match goal with
@@ -42,97 +89,70 @@ Ltac pull_step :=
   | |- context[if ?c then _ else _] => destruct c eqn:?
   end; cbv beta iota.
 
+Ltac same := apply st_next_same; reflexivity.
 Ltac fin :=
   try exact I;
-  try (split; [reflexivity | simpl; lia]);
+  try (split; [same | simpl; lia]);
   try solve [in_codes].
 
 (* ---------- streams *)
 Lemma gocs_good : forall st sid,
   match get_or_create_stream st sid with
-  | GOk st' _ => c_tls_oracle st' = c_tls_oracle st
+  | GOk st' _ => c_tls st' = c_tls st /\ c_close st' = c_close st
   | GFin => True
   | GErr code => In code all_error_codes
   end.
 Proof.
   intros. unfold get_or_create_stream.
-  repeat pull_step; try exact I; try reflexivity; cbv; repeat (first [left; reflexivity | right]).
+  repeat pull_step; try exact I; try (split; reflexivity); cbv; repeat (first [left; reflexivity | right]).
 Qed.
 
 Lemma with_stream_good : forall st ft sid rest b k,
   (length rest <= length b)%nat ->
-  (forall st' s, c_tls_oracle st' = c_tls_oracle st -> hgood st' b (k st' s)) ->
+  (forall st' s, c_tls st' = c_tls st -> c_close st' = c_close st -> hgood st' b (k st' s)) ->
   hgood st b (with_stream st ft sid rest k).
 Proof.
   intros st ft sid rest b k Hl Hk. unfold with_stream.
   pose proof (gocs_good st sid) as G.
   destruct (get_or_create_stream st sid) as [st' s| |code].
-  - specialize (Hk st' s G). unfold hgood in *. destruct (k st' s); try rewrite <- G; exact Hk.
-  - simpl. split; [reflexivity|assumption].
-  - simpl. left. exact G.
-Qed.
-
-(* ---------- TLS below CRYPTO *)
-Lemma tls_message_outcome_good : forall st t,
-  match tls_message_outcome st t with
-  | TOk _ => True
-  | TAlert d => (d = ALERT_unexpected_message \/ d = ALERT_decode_error) \/ (to_kind (c_tls_oracle st) = 1 /\ d = to_val (c_tls_oracle st))
-  | TQErr code _ => to_kind (c_tls_oracle st) = 2 /\ code = to_val (c_tls_oracle st)
-  | TExn _ => ~ oracle_total (c_tls_oracle st)
-  end.
-Proof.
-  intros. unfold tls_message_outcome.
-  destruct (c_tls_state st =? TLS_SERVER_POST_HANDSHAKE); [left; left; reflexivity|].
-  destruct ((c_tls_state st =? TLS_CLIENT_POST_HANDSHAKE) && negb (t =? 4)); [left; left; reflexivity|].
-  destruct (to_kind (c_tls_oracle st) =? 0) eqn:E0; [exact I|].
-  destruct (to_kind (c_tls_oracle st) =? 1) eqn:E1; [right; split; [lia|reflexivity]|].
-  destruct (to_kind (c_tls_oracle st) =? 2) eqn:E2; [split; [lia|reflexivity]|].
-  unfold oracle_total. lia.
-Qed.
-
-Lemma tls_reassemble_good : forall fuel st buf,
-  match tls_reassemble fuel st buf with
-  | TOk _ => True
-  | TAlert d => (d = ALERT_unexpected_message \/ d = ALERT_decode_error) \/ (to_kind (c_tls_oracle st) = 1 /\ d = to_val (c_tls_oracle st))
-  | TQErr code _ => to_kind (c_tls_oracle st) = 2 /\ code = to_val (c_tls_oracle st)
-  | TExn _ => ~ oracle_total (c_tls_oracle st)
-  end.
-Proof.
-  induction fuel as [|f IH]; intros; [exact I|].
-  destruct buf as [|t [|l1 [|l2 [|l3 r]]]]; try exact I.
-  cbn [tls_reassemble].
-  match goal with |- context[if ?c then _ else _] => destruct c end; [left; right; reflexivity|].
-  match goal with |- context[if ?c then _ else _] => destruct c end; [exact I|].
-  pose proof (tls_message_outcome_good st t) as G.
-  destruct (tls_message_outcome st t); try exact G. apply IH.
+  - destruct G as [G1 G2]. eapply hgood_transport; eauto.
+  - simpl. split; [same|assumption].
+  - simpl. intros _. left. exact G.
 Qed.
 
 (* ---------- the handlers (patched model) *)
 Lemma h_padding_good : forall st b, hgood st b (h_padding st b).
-Proof. intros. simpl. split; [reflexivity|apply skip_zeros_len]. Qed.
+Proof. intros. simpl. split; [same|apply skip_zeros_len]. Qed.
 
 Lemma h_ping_good : forall st b, hgood st b (h_ping st b).
-Proof. intros. simpl. split; [reflexivity|lia]. Qed.
+Proof. intros. simpl. split; [same|lia]. Qed.
 
 Lemma h_ack_good : forall st ft b, hgood st b (h_ack st ft b).
 Proof.
   intros. unfold h_ack. destruct (pull_ack_frame (ft =? FT_ACK_ECN) b) as [[] r|] eqn:E; [|exact I].
-  apply pull_ack_frame_len in E. simpl. split; [reflexivity|lia].
+  apply pull_ack_frame_len in E. simpl. split; [same|lia].
 Qed.
 
 Lemma h_reset_stream_good : forall st ft b, hgood st b (h_reset_stream st ft b).
 Proof.
   intros. unfold h_reset_stream. repeat pull_step; fin.
-  apply with_stream_good; [lia|]. intros st' s Ho. repeat pull_step; fin.
+  apply with_stream_good; [lia|]. intros st' s Ho Hc. repeat pull_step; fin.
 Qed.
 
 Lemma h_stop_sending_good : forall st ft b, hgood st b (h_stop_sending st ft b).
 Proof.
   intros. unfold h_stop_sending. repeat pull_step; fin.
-  apply with_stream_good; [lia|]. intros st' s Ho. simpl. split; [reflexivity|lia].
+  apply with_stream_good; [lia|]. intros st' s Ho Hc. simpl. split; [same|lia].
 Qed.
 
-Lemma h_crypto_good : forall st epoch ft b, hgood st b (h_crypto st epoch ft b).
+Lemma in_hd_concat {A} (x : A) l : In x (hd [] l) -> In x (concat l).
+Proof. destruct l as [|h r]; cbn [hd concat]; [contradiction|]. intro H. apply in_or_app. left. exact H. Qed.
+
+Lemma incl_tl_concat {A} (l : list (list A)) : incl (concat (tl l)) (concat l).
+Proof. destruct l as [|h r]; cbn [tl concat]; [apply incl_refl|apply incl_appr, incl_refl]. Qed.
+
+(* the CRYPTO handler: this is where TlsRecvP.crypto_deliver_total (tls_crypto_frame_total) is used *)
+Lemma h_crypto_good : forall st epoch ft b, hgood st b (h_crypto true st epoch ft b).
 Proof.
   intros. unfold h_crypto.
   destruct (pull_uint_var b) as [offset b1|] eqn:E1; [apply pull_uint_var_len in E1|exact I].
@@ -140,17 +160,26 @@ Proof.
   destruct (offset + len >? UINT_VAR_MAX); [simpl; in_codes|].
   destruct (pull_bytes len b2) as [data rest|] eqn:E3; [apply pull_bytes_len in E3|exact I].
   destruct (offset + len - r_start (crypto_of st epoch) >? MAX_PENDING_CRYPTO); [simpl; in_codes|].
-  destruct (offset - r_start (crypto_of st epoch) >? CRYPTO_FAR); [simpl; split; [reflexivity|lia]|].
+  destruct (offset - r_start (crypto_of st epoch) >? CRYPTO_FAR); [simpl; split; [same|lia]|].
   destruct (handle_frame (crypto_of st epoch) offset data false) as [ro r'] eqn:HF.
-  destruct ro as [|out fin| |]; try (simpl; split; [reflexivity|lia]).
-  unfold tls_handle_message.
-  pose proof (tls_reassemble_good (length (c_tls_buf st ++ out)) st (c_tls_buf st ++ out)) as G.
-  destruct (tls_reassemble (length (c_tls_buf st ++ out)) st (c_tls_buf st ++ out)); simpl.
-  - split; [reflexivity|lia].
-  - destruct G as [[G|G]|[G1 G2]]; subst;
-      [right; left; left; reflexivity|right; left; right; reflexivity|right; right; left; split; [assumption|reflexivity]].
-  - destruct G as [G1 G2]; subst. right; right; right. split; [assumption|reflexivity].
-  - exact G.
+  destruct ro as [|out fin| |]; try (simpl; split; [same|lia]).
+  cbv zeta.
+  pose proof (TlsRecvP.crypto_deliver_total (ts_cfg (c_tls st)) (ts_ctx (c_tls st)) (hd [] (ts_orcs (c_tls st))) ft out) as T.
+  destruct (TlsRecv.crypto_deliver true (ts_cfg (c_tls st)) (ts_ctx (c_tls st)) (hd [] (ts_orcs (c_tls st))) ft out)
+    as [c'|code ft'| |k].
+  - (* delivered: the Context is well-formed again, one list of oracle records is used up *)
+    cbn [hgood]. split; [|lia]. split; [|left; reflexivity].
+    split.
+    + intros [Hg Hw]. specialize (T Hg Hw). split; [exact Hg|right; exact T].
+    + unfold orc_pool. apply incl_tl_concat.
+  - cbn [hgood]. intros [Hg Hw]. specialize (T Hg Hw). unfold code_ok.
+    destruct T as [(d & Hd & Hc & _)|[[Hc _]|[[Hc _]|(o & Ho & Hc & _ & Hn)]]]; subst code.
+    + right; left. exists d. split; [exact Hd|reflexivity].
+    + right; right; left. reflexivity.
+    + in_codes.
+    + right; right; right. exists o. split; [apply in_hd_concat; exact Ho|split; [reflexivity|exact Hn]].
+  - simpl. in_codes.
+  - cbn [hgood]. intros [Hg Hw]. exact (T Hg Hw).
 Qed.
 
 Lemma h_new_token_good : forall st ft b, hgood st b (h_new_token st ft b).
@@ -171,7 +200,7 @@ Proof.
     destruct (pull_uint_var b2) eqn:E; [apply pull_uint_var_len in E; lia|exact I]. }
   destruct (if Z.testbit ft 1 then pull_uint_var b2 else POk (Zlen b2) b2) as [len b3|]; [|exact I].
   repeat pull_step; fin.
-  all: apply with_stream_good; [lia|]; intros st' s Ho; repeat pull_step; fin.
+  all: apply with_stream_good; [lia|]; intros st' s Ho Hc; repeat pull_step; fin.
 Qed.
 
 Lemma h_one_varint_good : forall st b, hgood st b (h_one_varint st b).
@@ -180,7 +209,7 @@ Proof. intros. unfold h_one_varint. repeat pull_step; fin. Qed.
 Lemma h_max_stream_data_good : forall st ft b, hgood st b (h_max_stream_data st ft b).
 Proof.
   intros. unfold h_max_stream_data. repeat pull_step; fin.
-  apply with_stream_good; [lia|]. intros st' s Ho. simpl. split; [reflexivity|lia].
+  apply with_stream_good; [lia|]. intros st' s Ho Hc. simpl. split; [same|lia].
 Qed.
 
 Lemma h_stream_count_good : forall st ft b, hgood st b (h_stream_count st ft b).
@@ -189,7 +218,7 @@ Proof. intros. unfold h_stream_count. repeat pull_step; fin. Qed.
 Lemma h_stream_data_blocked_good : forall st ft b, hgood st b (h_stream_data_blocked st ft b).
 Proof.
   intros. unfold h_stream_data_blocked. repeat pull_step; fin.
-  apply with_stream_good; [lia|]. intros st' s Ho. simpl. split; [reflexivity|lia].
+  apply with_stream_good; [lia|]. intros st' s Ho Hc. simpl. split; [same|lia].
 Qed.
 
 Lemma h_new_connection_id_good : forall st ft b, hgood st b (h_new_connection_id true st ft b).
@@ -202,7 +231,7 @@ Qed.
 Lemma h_retire_connection_id_good : forall st ft b, hgood st b (h_retire_connection_id st ft b).
 Proof.
   intros. unfold h_retire_connection_id. repeat pull_step; fin.
-  destruct (replenish _ _ _) as [hseq cids]. simpl. split; [reflexivity|lia].
+  destruct (replenish _ _ _) as [hseq cids]. simpl. split; [same|lia].
 Qed.
 
 Lemma h_path_challenge_good : forall st b, hgood st b (h_path_challenge st b).
@@ -221,7 +250,9 @@ Proof.
     destruct (pull_uint_var b1) eqn:E; [apply pull_uint_var_len in E; lia|exact I]. }
   destruct (if ft =? FT_TRANSPORT_CLOSE then pull_uint_var b1 else POk (-1) b1) as [cft b2|]; [|exact I].
   repeat pull_step; fin.
-  all: destruct (c_close st); simpl; split; try reflexivity; lia.
+  all: destruct (c_close st) eqn:Ec; simpl; (split; [|lia]).
+  all: try (apply st_next_same; [reflexivity|cbn [c_close set_close]; congruence]).
+  all: split; [apply tls_next_refl|right; split; [exact Ec|eexists; eexists; reflexivity]].
 Qed.
 
 Lemma h_handshake_done_good : forall st ft b, hgood st b (h_handshake_done st ft b).
@@ -265,39 +296,57 @@ Proof.
   - apply h_datagram_good.
 Qed.
 
-(* ---------- both variants: the only place where [patched] matters below the header *)
-Definition hgoodp (p : bool) (st : cst) (b : list Z) (r : hres) : Prop :=
+(* ---------- both variants: [patched] matters in NEW_CONNECTION_ID and below CRYPTO.  For the pinned variant only
+   "a handler that returns has not moved backwards" is needed (termination of the frame loop). *)
+Definition hlen (b : list Z) (r : hres) : Prop :=
   match r with
-  | HExn _ _ => p = false \/ ~ oracle_total (c_tls_oracle st)
-  | _ => hgood st b r
+  | HOk _ rest | HFin _ rest => (length rest <= length b)%nat
+  | _ => True
   end.
 
-Lemma hgood_hgoodp : forall p st b r, hgood st b r -> hgoodp p st b r.
-Proof. intros p st b r H. destruct r; simpl in *; auto. Qed.
+Definition hgoodp (p : bool) (st : cst) (b : list Z) (r : hres) : Prop :=
+  if p then hgood st b r else hlen b r.
 
-Lemma h_new_connection_id_goodp : forall p st ft b, hgoodp p st b (h_new_connection_id p st ft b).
+Lemma hgood_hlen : forall st b r, hgood st b r -> hlen b r.
+Proof. intros st b r H. destruct r; simpl in *; tauto. Qed.
+
+Lemma h_new_connection_id_len : forall p st ft b, hlen b (h_new_connection_id p st ft b).
 Proof.
-  intros. destruct p; [apply hgood_hgoodp, h_new_connection_id_good|].
-  unfold h_new_connection_id. repeat pull_step; fin.
+  intros. unfold h_new_connection_id. repeat pull_step; try exact I.
   all: try match goal with |- context[match ?l with [] => _ | _ :: _ => _ end] => destruct l end.
-  all: cbv beta iota; repeat pull_step; fin.
-  all: simpl; left; reflexivity.
+  all: cbv beta iota; repeat pull_step; try exact I; simpl; lia.
+Qed.
+
+Lemma h_crypto_len : forall p st epoch ft b, hlen b (h_crypto p st epoch ft b).
+Proof.
+  intros. unfold h_crypto.
+  destruct (pull_uint_var b) as [offset b1|] eqn:E1; [apply pull_uint_var_len in E1|exact I].
+  destruct (pull_uint_var b1) as [len b2|] eqn:E2; [apply pull_uint_var_len in E2|exact I].
+  destruct (offset + len >? UINT_VAR_MAX); [exact I|].
+  destruct (pull_bytes len b2) as [data rest|] eqn:E3; [apply pull_bytes_len in E3|exact I].
+  destruct (offset + len - r_start (crypto_of st epoch) >? MAX_PENDING_CRYPTO); [exact I|].
+  destruct (offset - r_start (crypto_of st epoch) >? CRYPTO_FAR); [simpl; lia|].
+  destruct (handle_frame (crypto_of st epoch) offset data false) as [ro r'] eqn:HF.
+  destruct ro as [|out fin| |]; try (simpl; lia).
+  cbv zeta. destruct (TlsRecv.crypto_deliver _ _ _ _ _ _); simpl; try exact I; lia.
 Qed.
 
 Lemma run_handler_goodp : forall p h st epoch ft b, hgoodp p st b (run_handler p h st epoch ft b).
 Proof.
-  intros. destruct h;
-    try (match goal with |- hgoodp _ _ _ (run_handler _ ?h _ _ _ _) =>
-           apply hgood_hgoodp; exact (run_handler_good h st epoch ft b) end).
-  simpl. apply h_new_connection_id_goodp.
+  intros. destruct p; [apply run_handler_good|]. unfold hgoodp.
+  destruct h;
+    try (match goal with |- hlen _ (run_handler _ ?h _ _ _ _) =>
+           apply (hgood_hlen st); exact (run_handler_good h st epoch ft b) end).
+  - simpl. apply h_crypto_len.
+  - simpl. apply h_new_connection_id_len.
 Qed.
 
 (* ---------- one iteration of the frame loop *)
 Lemma frame_step_goodp : forall p st epoch b,
   match frame_step p st epoch b with
-  | SNext st' rest _ => c_tls_oracle st' = c_tls_oracle st /\ (length rest < length b)%nat
-  | SQErr _ code _ => code_ok (c_tls_oracle st) code
-  | SExn _ _ => p = false \/ ~ oracle_total (c_tls_oracle st)
+  | SNext st' rest _ => (p = true -> st_next st st') /\ (length rest < length b)%nat
+  | SQErr _ code _ => p = true -> tls_ok (c_tls st) -> code_ok (c_tls st) code
+  | SExn _ _ => p = false \/ ~ tls_ok (c_tls st)
   end.
 Proof.
   intros. unfold frame_step.
@@ -305,12 +354,17 @@ Proof.
   destruct (lookup_frame ft frame_table) as [[h epochs]|]; [|in_codes].
   destruct (negb (zmem epoch epochs)); [in_codes|].
   pose proof (run_handler_goodp p h st epoch ft b1) as G.
-  destruct (run_handler p h st epoch ft b1); simpl in G.
-  - destruct G; split; [assumption|lia].
+  destruct p; unfold hgoodp in G; destruct (run_handler _ h st epoch ft b1); simpl in G.
+  - destruct G; split; [auto|lia].
   - in_codes.
-  - exact G.
-  - destruct G; split; [assumption|lia].
-  - exact G.
+  - intros _. exact G.
+  - destruct G; split; [auto|lia].
+  - right. exact G.
+  - split; [discriminate|lia].
+  - in_codes.
+  - discriminate.
+  - split; [discriminate|lia].
+  - left. reflexivity.
 Qed.
 
 Lemma frame_step_len : forall p st epoch b st' rest c,
@@ -342,44 +396,52 @@ Proof.
   apply frame_step_len in E. simpl in *. apply IH; lia.
 Qed.
 
-(* ---------- totality of _payload_received (patched model) *)
+(* ---------- totality of _payload_received (patched model).
+   [prior] of a raised QuicConnectionError is the _close_event at that moment: by close_step it is the one the
+   packet started with, or a peer's close. *)
 Lemma payload_loop_total : forall fuel st epoch b nlog found crypto,
-  oracle_total (c_tls_oracle st) ->
+  tls_ok (c_tls st) ->
   match payload_loop fuel true st epoch b nlog found crypto with
-  | PDone st' _ _ _ => c_tls_oracle st' = c_tls_oracle st
-  | PQErr _ _ code _ => code_ok (c_tls_oracle st) code
+  | PDone st' _ _ _ => st_next st st'
+  | PQErr prior _ code _ => code_ok (c_tls st) code /\ close_step (c_close st) prior
   | PExn _ _ => False
   end.
 Proof.
   induction fuel as [|f IH]; intros st epoch b nlog found crypto Ho.
-  - destruct b; reflexivity.
-  - destruct b as [|x b]; [reflexivity|].
+  - destruct b; apply st_next_same; reflexivity.
+  - destruct b as [|x b]; [apply st_next_same; reflexivity|].
     rewrite payload_step. pose proof (frame_step_goodp true st epoch (x :: b)) as G.
     destruct (frame_step true st epoch (x :: b)) as [st' rest c|lg code ft|lg k].
-    + destruct G as [G1 G2]. specialize (IH st' epoch rest (nlog + 1) true (crypto || c)).
-      rewrite G1 in IH. specialize (IH Ho).
-      destruct (payload_loop f true st' epoch rest (nlog + 1) true (crypto || c)); assumption.
-    + exact G.
+    + destruct G as [G1 G2]. specialize (G1 eq_refl).
+      specialize (IH st' epoch rest (nlog + 1) true (crypto || c)).
+      destruct G1 as [[T1 I1] C1]. specialize (IH (T1 Ho)).
+      destruct (payload_loop f true st' epoch rest (nlog + 1) true (crypto || c)).
+      * eapply st_next_trans; [|exact IH]. split; [split|]; assumption.
+      * destruct IH as [IH1 IH2]. split; [eapply code_ok_incl; eauto|eapply close_step_trans; eauto].
+      * exact IH.
+    + split; [apply G; auto|left; reflexivity].
     + destruct G as [G|G]; [discriminate|contradiction].
 Qed.
 
 Lemma payload_received_total : forall st epoch creq b,
-  oracle_total (c_tls_oracle st) ->
+  tls_ok (c_tls st) ->
   match payload_received true st epoch creq b with
-  | PDone _ _ _ _ => True
-  | PQErr _ _ code _ => code_ok (c_tls_oracle st) code
+  | PDone st' _ _ _ => st_next st st'
+  | PQErr prior _ code _ => code_ok (c_tls st) code /\ close_step (c_close st) prior
   | PExn _ _ => False
   end.
 Proof.
   intros st epoch creq b Ho. unfold payload_received.
   pose proof (payload_loop_total (S (length b)) st epoch b 0 false false Ho) as G.
   destruct (payload_loop (S (length b)) true st epoch b 0 false false) as [st' n fo cr| |]; try assumption.
-  destruct (negb fo); [in_codes|]. destruct (creq && negb cr); [in_codes|exact I].
+  destruct G as [G1 G2].
+  destruct (negb fo); [split; [in_codes|exact G2]|]. destruct (creq && negb cr); [split; [in_codes|exact G2]|].
+  split; assumption.
 Qed.
 
 (* receive_datagram below decryption: returns normally, possibly having decided to close *)
 Lemma receive_packet_total : forall st epoch creq rbits b,
-  oracle_total (c_tls_oracle st) ->
+  tls_ok (c_tls st) ->
   forall n k, receive_packet true st epoch creq rbits b <> OExn n k.
 Proof.
   intros st epoch creq rbits b Ho n k. unfold receive_packet.
@@ -389,6 +451,21 @@ Proof.
   - destruct (c_close st') as [[[[] c] f]|]; discriminate.
   - destruct prior as [[[[] c] f]|]; discriminate.
   - contradiction.
+Qed.
+
+(* goal "own close code": when no close was decided before the packet (receive_datagram's gate), a close
+   initiated by this endpoint carries a documented code; the other endings are OOk / the peer's close *)
+Lemma receive_packet_close_code : forall st epoch creq rbits b n code ft,
+  tls_ok (c_tls st) -> c_close st = None ->
+  receive_packet true st epoch creq rbits b = OClosed n code ft -> code_ok (c_tls st) code.
+Proof.
+  intros st epoch creq rbits b n code ft Ho Hc. unfold receive_packet.
+  destruct rbits; [intros H; injection H as _ <- _; in_codes|].
+  pose proof (payload_received_total st epoch creq b Ho) as G.
+  destruct (payload_received true st epoch creq b) as [st' m fo cr|prior m c0 f0|m kk]; [| |contradiction].
+  - destruct G as [_ [G|[_ (c1 & f1 & G)]]]; rewrite G; [rewrite Hc|]; discriminate.
+  - destruct G as [G1 [G|[_ (c1 & f1 & G)]]]; rewrite G; [rewrite Hc|discriminate].
+    intros H; injection H as _ <- _. exact G1.
 Qed.
 
 (* ---------- classification of parse errors, at any frame boundary of any payload *)
@@ -476,9 +553,12 @@ Proof. repeat split. Qed.
 (* ---------- the pinned NEW_CONNECTION_ID handler raises IndexError: concrete witness
    (state reached on a real server by docs/C05.md finding N1: active CID 10, none available,
    sequence number 20 already seen; frame NEW_CONNECTION_ID(seq=20, retire_prior_to=11)) *)
+Definition tls_server_done : tls_side :=
+  mkTls TlsRecvP.cfg_default_server
+        (TlsRecv.mkCtx TlsDispatch.SERVER_POST_HANDSHAKE [] false None false 3 false) [].
 Definition ncid_witness_state : cst :=
-  mkCst false 0 1048576 128 128 1048576 1048576 (-1) 8 0 8 10 7 10 8 TLS_SERVER_POST_HANDSHAKE
-        (mkTlsOracle 0 0 0) [0; 1; 2; 3; 4; 5; 6; 7] [] [0; 1; 2; 3; 4; 5; 6; 7; 8; 10; 20] [] [] [] []
+  mkCst false 0 1048576 128 128 1048576 1048576 (-1) 8 0 8 10 7 10 8
+        tls_server_done [0; 1; 2; 3; 4; 5; 6; 7] [] [0; 1; 2; 3; 4; 5; 6; 7; 8; 10; 20] [] [] []
         recv_init recv_init recv_init None [].
 Definition ncid_witness_payload : list Z :=
   [24; 20; 11; 8; 20; 20; 20; 20; 20; 20; 20; 20; 0; 0; 0; 0; 0; 0; 0; 0; 0; 0; 0; 0; 0; 0; 0; 0].
@@ -494,8 +574,32 @@ Lemma ncid_patched_closes :
 Proof. vm_compute. reflexivity. Qed.
 
 (* hypotheses of the totality theorems are satisfiable by a non-trivial state *)
-Example oracle_total_example : oracle_total (c_tls_oracle ncid_witness_state).
-Proof. left. reflexivity. Qed.
+Example tls_ok_example : tls_ok (c_tls ncid_witness_state).
+Proof. split; [exact TlsRecvP.wf_cfg_default_server|right; vm_compute; reflexivity]. Qed.
+
+(* a client in the middle of its handshake: the CRYPTO frame carries an EncryptedExtensions with QUIC transport
+   parameters, which the TLS model accepts (the Ok branch below CRYPTO is inhabited) ... *)
+Definition tls_client_ee (orcs : list (list TlsRecv.orc)) : tls_side :=
+  mkTls TlsRecvP.cfg_default_client
+        (TlsRecv.mkCtx TlsDispatch.CLIENT_EXPECT_ENCRYPTED_EXTENSIONS [] false None false 2 false) orcs.
+Definition hs_client_state (orcs : list (list TlsRecv.orc)) : cst :=
+  mkCst true 0 1048576 128 128 1048576 1048576 (-1) 1 0 2 0 0 0 8
+        (tls_client_ee orcs) [0] [] [0] [] [] [] recv_init recv_init recv_init None [].
+Definition crypto_ee_payload : list Z := [6; 0; 13; 8; 0; 0; 9; 0; 7; 0; 57; 0; 3; 1; 2; 3].
+
+Example crypto_frame_accepted :
+  tls_ok (c_tls (hs_client_state [[TlsRecv.orc0]])) /\
+  receive_packet true (hs_client_state [[TlsRecv.orc0]]) EPOCH_HANDSHAKE false false crypto_ee_payload = OOk 1.
+Proof. split; [split; [exact TlsRecvP.wf_cfg_default_client|right; vm_compute; reflexivity]|vm_compute; reflexivity]. Qed.
+
+(* ... a Finished in its place closes with CRYPTO_ERROR + unexpected_message, and parameters the callback rejects
+   close with the callback's code *)
+Example crypto_frame_rejected :
+  receive_packet true (hs_client_state [[TlsRecv.orc0]]) EPOCH_HANDSHAKE false false [6; 0; 4; 20; 0; 0; 0]
+    = OClosed 1 (EC_CRYPTO_ERROR + TlsDispatch.AD_unexpected_message) FT_CRYPTO /\
+  receive_packet true (hs_client_state [[TlsRecv.mkOrc [] 8 6 (-1) true 1 1 true 0 true]]) EPOCH_HANDSHAKE false false
+    crypto_ee_payload = OClosed 1 8 6.
+Proof. split; vm_compute; reflexivity. Qed.
 
 Example frames_ok_example :
   receive_packet true ncid_witness_state EPOCH_ONE_RTT false false [1; 16; 64; 100; 8; 0; 1; 2; 3] = OOk 3.
@@ -532,21 +636,54 @@ Proof.
         -- intros H3 H4. eapply payload_error_at_boundary; eauto. eapply cls_truncated_frame; eauto.
 Qed.
 
+(* receive_total_tls: the frame layer with the TLS message layer substituted below CRYPTO.  For every state whose
+   tls.Context satisfies the hypotheses of tls_handle_message_total, every epoch, flags, payload bytes and every
+   valuation of the oracle records: receive_packet is never an escaping exception; a QuicConnectionError raised
+   out of _payload_received has a documented code; the state left behind satisfies the hypotheses again. *)
 Theorem receive_total_frames : forall st epoch creq rbits payload,
-  oracle_total (c_tls_oracle st) ->
+  tls_ok (c_tls st) ->
   (forall n k, receive_packet true st epoch creq rbits payload <> OExn n k) /\
   match payload_received true st epoch creq payload with
-  | PDone _ _ _ _ => True
-  | PQErr _ _ code _ => code_ok (c_tls_oracle st) code
+  | PDone st' _ _ _ => tls_ok (c_tls st') /\ close_step (c_close st) (c_close st')
+  | PQErr prior _ code _ => code_ok (c_tls st) code /\ close_step (c_close st) prior
   | PExn _ _ => False
   end.
 Proof.
-  intros. split; [apply receive_packet_total; assumption|apply payload_received_total; assumption].
+  intros st epoch creq rbits payload Ho. split; [apply receive_packet_total; assumption|].
+  pose proof (payload_received_total st epoch creq payload Ho) as G.
+  destruct (payload_received true st epoch creq payload); try exact G.
+  destruct G as [[T _] C]. split; [exact (T Ho)|exact C].
+Qed.
+
+(* oracle valuations "within their stated range": the transport-parameter callback answers 0 (accepted) or a
+   QuicErrorCode.  Then every code is a QuicErrorCode or CRYPTO_ERROR + a TLS alert. *)
+Definition orcs_in_range (t : tls_side) : Prop :=
+  forall o, In o (orc_pool t) -> TlsRecv.o_tp_code o = 0 \/ In (TlsRecv.o_tp_code o) all_error_codes.
+
+Definition code_documented (code : Z) : Prop :=
+  In code all_error_codes \/
+  (exists d, In d (TlsDispatch.AD_missing_extension :: TlsRecvP.raised_alerts) /\ code = EC_CRYPTO_ERROR + d).
+
+Lemma code_ok_documented t code : orcs_in_range t -> code_ok t code -> code_documented code.
+Proof.
+  intros R [H|[(d & Hd & H)|[H|(o & Ho & H & Hn)]]]; unfold code_documented.
+  - left. exact H.
+  - right. exists d. split; [right; exact Hd|exact H].
+  - right. exists TlsDispatch.AD_missing_extension. split; [left; reflexivity|exact H].
+  - destruct (R o Ho) as [E|E]; [congruence|]. left. rewrite H. exact E.
+Qed.
+
+Theorem receive_close_code : forall st epoch creq rbits payload n code ft,
+  tls_ok (c_tls st) -> orcs_in_range (c_tls st) -> c_close st = None ->
+  receive_packet true st epoch creq rbits payload = OClosed n code ft -> code_documented code.
+Proof.
+  intros st epoch creq rbits payload n code ft Ho Hr Hc H.
+  eapply code_ok_documented; [exact Hr|]. eapply receive_packet_close_code; eauto.
 Qed.
 
 Theorem receive_total_pinned_witnesses :
   (exists st epoch payload n,
-     oracle_total (c_tls_oracle st) /\ c_close st = None /\
+     tls_ok (c_tls st) /\ c_close st = None /\
      receive_packet false st epoch false false payload = OExn n EXN_IndexError /\
      receive_packet true st epoch false false payload = OClosed n EC_PROTOCOL_VIOLATION FT_NEW_CONNECTION_ID) /\
   (exists ptype len,
@@ -555,7 +692,7 @@ Theorem receive_total_pinned_witnesses :
 Proof.
   split.
   - exists ncid_witness_state, EPOCH_ONE_RTT, ncid_witness_payload, 1.
-    split; [left; reflexivity|]. split; [reflexivity|].
+    split; [exact tls_ok_example|]. split; [reflexivity|].
     split; [apply ncid_pinned_raises|apply ncid_patched_closes].
   - exists 5, 31. split; reflexivity.
 Qed.
